@@ -307,7 +307,7 @@ def _seq_ops(ops):
     out = []
     for op in ops:
         if op[0] == "par_scan":
-            out.extend(["scan", op[1], j[0], j[1]] for j in op[2])
+            out.extend(["scan_node" if len(j) > 2 and j[2] else "scan", op[1], j[0], j[1]] for j in op[2])
         elif op[0] == "abort_scan":
             out.append(["scan", op[1], op[2], op[3]])
         else:
@@ -646,6 +646,22 @@ def run_check(prop, tier, master, only_index=None):
             dbg("mechanism", mech)
             nconf = confirm(small, clause)
             dbg("confirmed", nconf)
+            if nconf < 3 and prop == "C09" and clause == "results_differ":
+                # Nondeterminism no seed controls (object addresses, GC timing): one replay reproduces it
+                # only with some probability.  Repeat every scan of the minimised scenario so that two
+                # different results for one key within a run become practically certain.
+                amp = copy.deepcopy(small)
+                for w in amp["worlds"]:
+                    w["ops"] = [o for op in w["ops"] for o in ([op] * (16 if op[0] in ("scan", "scan_node") else 1))]
+                n2 = confirm(amp, clause)
+                dbg("amplified confirm", n2)
+                if n2 == 3:
+                    small, nconf = amp, 3
+                    mech = sorted(set(mech) | {"unseeded(amplified x16)"})
+                    outs = run_many([small], verbose=True)[0]
+                    sviols, _ = evaluate(small, outs)
+                    sv = next((x for x in sviols if x["clause"] == clause), sv)
+                    sig["mechanism"] = "+".join(mech)
             desc = describe(small, sv, outs)
             k = match_known(known, prop, sig)
             if k and nconf == 3:
@@ -774,7 +790,7 @@ def validate_process_model(scn, outs):
         evs = {e["op"]: e for e in o.get("events", []) if "op" in e}
         for ri, run in enumerate(w["runs"]):
             ev = evs.get(ri)
-            if not ev or ev.get("faulty"):
+            if not ev or ev.get("faulty") or run["source"] == "fifo":
                 continue
             flag = {"json": "--json", "replace": "--replace", "default": None}[run["mode"]]
             argv = [flag] if flag else []
@@ -783,7 +799,7 @@ def validate_process_model(scn, outs):
             if run["source"] == "file":
                 argv.append(infile)
             env = {"PATH": os.environ.get("PATH", ""), "PYTHONHASHSEED": str(w.get("hashseed", 0)), "PYTHONDONTWRITEBYTECODE": "1",
-                   "PYTHONIOENCODING": "utf-8", "PYTHONWARNINGS": "ignore"}
+                   "PYTHONIOENCODING": (run.get("knobs") or {}).get("stdout_encoding") or "utf-8", "PYTHONWARNINGS": "ignore"}
             p = subprocess.run([PY, "-c", _LAUNCHER, os.path.join(REPO, "src")] + argv, input=(b"" if run["source"] == "file" else data),
                                stdout=subprocess.PIPE, stderr=subprocess.PIPE, env=env, timeout=120)
             compared += 1
